@@ -71,8 +71,14 @@ Theorem C02_time_value : forall t f,
                 end.
 Proof. intros t f; destruct f; reflexivity. Qed.
 Theorem C02_duration_value : forall d unit useInt prec,
-  duration_jv d unit useInt prec = if useInt then JNum (print_Z (Z.quot (d_ns d) unit)) else float_jv false (d_quot d) prec.
+  duration_jv d unit useInt prec = if useInt then JNum (print_Z (wrap64 (Z.quot (d_ns d) unit))) else float_jv false (d_quot d) prec.
 Proof. reflexivity. Qed.
+(* ... which is the exact truncated quotient for every int64 duration and every unit other
+   than 0 (Go panics: excluded by the premise dur_ok) and -1 (MinInt64 / -1 wraps in Go too) *)
+Theorem C02_duration_value_exact : forall d unit prec,
+  (- two63Z <= d_ns d < two63Z)%Z -> unit <> 0%Z -> unit <> (-1)%Z ->
+  duration_jv d unit true prec = JNum (print_Z (Z.quot (d_ns d) unit)).
+Proof. exact duration_jv_exact. Qed.
 
 (* Hex, RawCBOR, nil *)
 Theorem C02_hex_value : forall st s, prim_jv st (PHex s) = JStr (flat_map (fun v => [hex_digit (v / 16); hex_digit (v mod 16)]) s).
@@ -143,6 +149,7 @@ Print Assumptions C02_float_value.
 Print Assumptions C02_float_cleanup_same_number.
 Print Assumptions C02_time_value.
 Print Assumptions C02_duration_value.
+Print Assumptions C02_duration_value_exact.
 Print Assumptions C02_hex_value.
 Print Assumptions C02_rawcbor_value.
 Print Assumptions C02_nil_value.
